@@ -11,12 +11,13 @@ import (
 func init() {
 	Registry["C39"] = RuleDef{Module: "rueidisaside", Run: runC39,
 		Technique:   "guard rule on every value returned by Get (placeholder test on the returned value's own path), must-pass rules for lock release on the failure arms, def-use rules tying lock value, setkey and delkey arguments to one client id, ordering rule (waiter registered before the read), lock-set rule for the waiter table",
-		Explanation: "Decides client-side necessary conditions: (R39a) every value Get returns with a possibly-nil error is the empty string or a value that was tested not to start with the lock placeholder prefix on that very path; (R39b) once the lock was taken, every path on which the loader or the conditional store failed executes the delete-if-mine script for the same key and client id, and the conditional store and the lock value use the id returned by keepalive; (R39c) when the lock holder's liveness key is gone the stale lock is released with the delete-if-equal script for (key, observed placeholder) and the read is retried; (R39d) in every retry round the waiter channel for the key is registered before the cached read is issued, the waiter for the holder's id before its liveness read, and Get then waits on both channels and the context; (R39e) waiter channels are closed only under the client's mutex and removed from the table in the same critical section (closed once); keepalive publishes a new client id only while holding the mutex and only when none is set.",
+		Explanation: "Decides client-side necessary conditions: (R39a) every value Get returns with a possibly-nil error is the empty string or a value that was tested not to start with the lock placeholder prefix on that very path; (R39b) once the lock was taken, every path on which the loader or the conditional store failed executes the delete-if-mine script for the same key and client id, and the conditional store and the lock value use the id returned by keepalive; (R39c) when the lock holder's liveness key is gone the stale lock is released with the delete-if-equal script for (key, observed placeholder) and the read is retried; (R39d) in every retry round the waiter channel for the key is registered before the cached read is issued, the waiter for the holder's id before its liveness read, and Get then waits on both channels and the context; (R39e) waiter channels are closed only under the client's mutex and removed from the table in the same critical section (closed once); keepalive publishes a new client id only while holding the mutex and only when none is set; (R39f) no script of the package is built retryable with a non-idempotent command or read-only with a write.",
 		NotDecided:  "that the loader runs once across clients (server-side SET NX and invalidation delivery), liveness-key expiry timing, the scripts' text."}
 }
 
 func runC39(r *Report) {
 	A := "rueidis/rueidisaside."
+	r.Anchor("R39f", "cache-aside scripts", scriptConstructorRule(r, "R39f", "rueidis/rueidisaside", "") >= 3)
 	fn := r.FnAnchor("R39a", A+"(*Client).Get")
 	if fn == nil {
 		return
